@@ -43,6 +43,8 @@ EXOTIC = ('\x0b', '\x0c', '\x1c', '\x1d', '\x1e', '\x85', '\u2028', '\u2029')
 def cases(ctx):
     q = ctx.tier == 'quick'
     n = 120 if q else 4000
+    # one big stream per shard (files far larger than any read buffer)
+    yield 'big', {'i': ctx.shard}
     ctx.new_phase()
     for i in range(n):
         if not ctx.time_left():
@@ -54,7 +56,58 @@ def sig(gs):
     return [canon.graph_sig(g) for g in gs]
 
 
+def big(ctx, p):
+    import pathlib
+    rng = ctx.rng('big', p['i'])
+    n = rng.choice([2600, 3500, 5000])
+    parts = []
+    for k in range(n):
+        parts.append(rng.choice(['(a%d / alpha)' % k, '(b%d / beta :ARG0 (c / gamma))' % k,
+                                 '# ::id %d\n(d%d / delta :quant %d)' % (k, k, k),
+                                 '(e%d / eps\n   :mod (f / phi))' % k]))
+    text = '\n\n'.join(parts) + '\n'
+    ctx.count('big_stream_chars', len(text))
+    tmpdir = tempfile.mkdtemp(prefix='pmon-c09-')
+    try:
+        path = os.path.join(tmpdir, 'big.txt')
+        with open(path, 'w', encoding='utf-8') as fh:
+            fh.write(text)
+
+        def via_handle():
+            with open(path, encoding='utf-8') as fh:
+                return penman.load(fh)
+        ok, base = ctx.call(penman.loads, text, clause='loads(big)')
+        if not ok:
+            return
+        want = sig(base)
+        if len(base) != n:
+            ctx.fail('container!=generating-graphs', mech='str:count', detail={'graphs': n, 'got': len(base)})
+        for cname, f in (('file', lambda: penman.load(path, encoding='utf-8')),
+                         ('Path', lambda: penman.load(pathlib.Path(path))),
+                         ('filehandle', via_handle),
+                         ('lines', lambda: list(penman.iterdecode(text.split('\n')))),
+                         ('StringIO', lambda: penman.load(io.StringIO(text)))):
+            ok, res = ctx.call(f, clause=f'decode[{cname}](big)')
+            ctx.count('events')
+            ctx.count('container:' + cname)
+            if ok and sig(res) != want:
+                ctx.fail('container!=generating-graphs', mech=f'{cname}:big-stream',
+                         detail={'container': cname, 'chars': len(text), 'graphs': n, 'got': len(res)})
+        outp = os.path.join(tmpdir, 'big-out.txt')
+        ok, _ = ctx.call(penman.dump, base, outp, clause='dump(name)(big)')
+        if ok:
+            ok, back = ctx.call(penman.load, outp, clause='load(dump)(big)')
+            if ok and sig(back) != want:
+                ctx.fail('load(dump(gs))!=gs', mech='big-stream', detail={'graphs': n, 'got': len(back)})
+    finally:
+        import shutil
+        shutil.rmtree(tmpdir, ignore_errors=True)
+    ctx.case(('big', p['i']), True)
+
+
 def oracle(ctx, kind, p):
+    if kind == 'big':
+        return big(ctx, p)
     if kind != 'rand':
         return
     rng = ctx.rng('rand', p['i'])
